@@ -240,6 +240,18 @@ class RefTable:
         return tuple(best)
 
 
+def incomplete_phases(rows):
+    """Phases (harness labels) whose rows are not a complete flight-level x mass grid: some
+    (FL, mass) pair occurs twice, or #levels x #masses differs from the number of distinct pairs."""
+    bad = []
+    for ph in PHASES:
+        pairs = [(r['fl'], r['mass']) for r in rows if r['ph'] == ph]
+        d = set(pairs)
+        if len(d) != len(pairs) or len({p[0] for p in d}) * len({p[1] for p in d}) != len(d):
+            bad.append(ph)
+    return bad
+
+
 def close3(obs, exp, tol):
     return all(math.isfinite(o) and abs(o - e) <= t for o, e, t in zip(obs, exp, tol))
 
